@@ -92,7 +92,8 @@ fn split_body(body: &[u8]) -> Vec<(Vec<u8>, u32)> {
 	let mut cuts: Vec<usize> = (0..n_cuts)
 		.map(|_| match rt::draw("cut_kind", 3) {
 			// near the start (inside / right after the leading whitespace) is where the sniffing lives
-			0 => rt::draw("cut_lo", (body.len().min(12) + 1) as u32) as usize,
+			// (the leading whitespace may be long - around the 127-byte sniffing window - and split into several chunks)
+			0 => rt::draw("cut_lo", (body.len().min(body.iter().position(|b| !b.is_ascii_whitespace()).unwrap_or(0) + 12) + 1) as u32) as usize,
 			1 => body.iter().position(|b| !b.is_ascii_whitespace()).unwrap_or(0),
 			_ => rt::draw("cut_any", (body.len() + 1) as u32) as usize,
 		})
@@ -163,7 +164,8 @@ pub async fn scenario() {
 			4 => (vec![rt::pick("rej", &REJECTED).to_string(), rt::pick("acc", &ACCEPTED).to_string()], None),
 			_ => (vec![random_case(*rt::pick("acc", &ACCEPTED))], Some(true)),
 		};
-		let lead: String = (0..rt::draw("lead_ws", 4) * rt::draw_range("lead_ws_n", 1, 10)).map(|_| *rt::pick("wsch", &[' ', '\n', '\t', '\r'])).collect();
+		let lead_n = if rt::chance("long_lead", 1, 6) { *rt::pick("lead_long_n", &[100u32, 120, 126, 127, 128, 129, 140]) } else { rt::draw("lead_ws", 4) * rt::draw_range("lead_ws_n", 1, 10) };
+		let lead: String = (0..lead_n).map(|_| *rt::pick("wsch", &[' ', '\n', '\t', '\r'])).collect();
 		let nonce = 100 + k;
 		let payload = match rt::draw("payload", 8) {
 			0 => format!("{lead}[{{\"jsonrpc\":\"2.0\",\"id\":1,\"method\":\"echo\",\"params\":[{nonce}]}},{{\"jsonrpc\":\"2.0\",\"id\":2,\"method\":\"add\",\"params\":[1,2]}}]"),
@@ -175,10 +177,22 @@ pub async fn scenario() {
 		};
 		let payload = match exact_limit {
 			Some(l) => {
-				// a call padded to exactly the limit (or one byte less)
-				let l = l - rt::draw("below", 2) as usize;
+				// a call padded to exactly the limit, one byte less, or beyond it (refused - in the same way whatever the
+				// framing)
+				let l = match rt::draw("around_limit", 4) {
+					0 => l,
+					1 => l - 1,
+					2 => l + 1,
+					_ => l + 30,
+				};
+				let lead = if lead.len() > 40 { String::new() } else { lead.clone() };
 				let base = format!("{lead}{{\"jsonrpc\":\"2.0\",\"id\":{nonce},\"method\":\"echo\",\"params\":[\"\"]}}");
-				format!("{lead}{{\"jsonrpc\":\"2.0\",\"id\":{nonce},\"method\":\"echo\",\"params\":[\"{}\"]}}", "p".repeat(l.saturating_sub(base.len())))
+				if rt::chance("trailing_pad", 1, 3) {
+					// a complete call followed by whitespace: what counts is the size of the body, not of the call
+					format!("{base}{}", " ".repeat(l.saturating_sub(base.len())))
+				} else {
+					format!("{lead}{{\"jsonrpc\":\"2.0\",\"id\":{nonce},\"method\":\"echo\",\"params\":[\"{}\"]}}", "p".repeat(l.saturating_sub(base.len())))
+				}
 			}
 			None => payload,
 		};
